@@ -52,10 +52,10 @@ def find_assign(body, name, fname):
 
 
 def run_all(repo, outdir):
-    from . import gen_events, gen_emitret, gen_defaults, gen_pred, gen_switches, gen_pyast, gen_book
+    from . import gen_events, gen_emitret, gen_defaults, gen_pred, gen_switches, gen_pyast, gen_book, gen_syshist
 
     errs = []
-    for m in (gen_events, gen_emitret, gen_defaults, gen_pred, gen_switches, gen_pyast, gen_book):
+    for m in (gen_events, gen_emitret, gen_defaults, gen_pred, gen_switches, gen_pyast, gen_book, gen_syshist):
         try:
             for fn, text in m.generate(repo).items():
                 write_if_changed(os.path.join(outdir, fn), text)
